@@ -391,6 +391,9 @@ func c01(c *Ctx) {
 	// ---- R01.P ----------------------------------------------------------------------------------
 	c01Primitives(c, tr)
 
+	// byte strings: the writer's header/size/alignment and the reader's expectations (same tabulation as C02 R02.S)
+	c02Strings(c, tr, "R01.P", "", "string:")
+
 	// ---- R01.F ----------------------------------------------------------------------------------
 	c01Presence(c, pp, tr)
 
@@ -484,6 +487,38 @@ func c01(c *Ctx) {
 	}
 }
 
+// isBitMask: v is exactly 1 << tag.index (the shift amount is the parsed tag's index itself, not an expression of it).
+func isBitMask(v ssa.Value, tr *an.Tracer) bool {
+	for {
+		if cv, ok := v.(*ssa.Convert); ok {
+			v = cv.X
+			continue
+		}
+		break
+	}
+	sh, ok := v.(*ssa.BinOp)
+	if !ok || sh.Op.String() != "<<" {
+		return false
+	}
+	if k, ok := an.ConstInt(sh.X); !ok || k != 1 {
+		return false
+	}
+	amt := sh.Y
+	for {
+		if cv, ok := amt.(*ssa.Convert); ok {
+			amt = cv.X
+			continue
+		}
+		break
+	}
+	ld, ok := amt.(*ssa.UnOp)
+	if !ok {
+		return false
+	}
+	fa, ok := ld.X.(*ssa.FieldAddr)
+	return ok && an.FieldName(fa.X.Type(), fa.Field) == "tl.fieldTag.index"
+}
+
 // c01Presence: R01.F.
 func c01Presence(c *Ctx, pp *pop.Population, tr *an.Tracer) {
 	r := c.R
@@ -501,7 +536,7 @@ func c01Presence(c *Ctx, pp *pop.Population, tr *an.Tracer) {
 		}
 		if b, ok := cd.X.(*ssa.BinOp); ok && b.Op.String() == "&" {
 			o := tr.OriginString(b.Y) + tr.OriginString(b.X)
-			if strings.Contains(o, "const:1 <<") && strings.Contains(o, "tl.fieldTag.index") && strings.Contains(o, "PopUint") {
+			if (isBitMask(b.X, tr) || isBitMask(b.Y, tr)) && strings.Contains(o, "PopUint") {
 				decOK = true
 			}
 		}
@@ -512,8 +547,7 @@ func c01Presence(c *Ctx, pp *pop.Population, tr *an.Tracer) {
 	for _, b := range enc.Blocks {
 		for _, in := range b.Instrs {
 			if bo, ok := in.(*ssa.BinOp); ok && bo.Op.String() == "|" {
-				o := tr.OriginString(bo.Y) + tr.OriginString(bo.X)
-				if strings.Contains(o, "const:1 <<") && strings.Contains(o, "tl.fieldTag.index") {
+				if isBitMask(bo.X, tr) || isBitMask(bo.Y, tr) {
 					maskOK = true
 				}
 			}
